@@ -48,6 +48,9 @@ type Case struct {
 	Goroutines [][]Op          `json:"goroutines"`
 	Nested     map[string][]Op `json:"nested,omitempty"` // "h/<t>/<slot>/<ctx>", "f/<t>/<slot>", "before", "after"
 	Procs      int             `json:"procs"`
+	// PanicEvery > 0: every handler panics (after its nested script) on events
+	// whose id is a multiple of it.
+	PanicEvery int `json:"panic_every,omitempty"`
 }
 
 type Ent struct {
@@ -109,6 +112,10 @@ func (w *world) OnHandler(ti, slot int, ctxAware bool, ctx context.Context, id i
 	// that is on a call stack (the documented self-delivery and its
 	// transitive forms).
 	w.runNestedOpts(k, w.seqKeys[k])
+	if w.c.PanicEvery > 0 && id%w.c.PanicEvery == 0 {
+		// a handler that fails: the bus contains the panic (C05) and stays usable
+		panic(fmt.Sprintf("handler %s failed on event %d", k, id))
+	}
 }
 
 func (w *world) runNested(key string) { w.runNestedOpts(key, false) }
